@@ -117,6 +117,9 @@ func runCheck(eng *Engine, prop, tier string, verbose, noReplay bool) int {
 	eng.loadContracts()
 	pats := eng.packagesFor(prop)
 	evPath := filepath.Join(eng.verif, "evidence", prop+".json")
+	if d := os.Getenv("GOVC_EVIDENCE_DIR"); d != "" {
+		evPath = filepath.Join(d, prop+".json") // self-tests on mutated trees must not overwrite the real evidence
+	}
 	os.MkdirAll(filepath.Dir(evPath), 0755)
 	fail := func(msg string) int {
 		// a broken check must not look like success: report it as a violation of the machinery's own obligation
@@ -450,6 +453,9 @@ func refuteBounded(eng *Engine, failed []*Group, timeout int) {
 
 func writeReplay(eng *Engine, prop, name string, body map[string]interface{}) string {
 	dir := filepath.Join(eng.verif, "evidence", "replay", prop)
+	if d := os.Getenv("GOVC_EVIDENCE_DIR"); d != "" {
+		dir = filepath.Join(d, "replay", prop)
+	}
 	os.MkdirAll(dir, 0755)
 	p := filepath.Join(dir, sanitize(name)+".json")
 	data, _ := json.MarshalIndent(body, "", " ")
